@@ -134,13 +134,74 @@ theorem inv_close (s : St) (h : Inv s) : Inv (closeOp s) := by
       have := hb x hx hn
       simpa [closeOp, hc'] using this
 
+/-! ### `sweep` (self-close of a connection without wire ids) and `burn` only touch connections -/
+
+@[simp] theorem sweep_exs (s : St) : (sweep s).exs = s.exs := by unfold sweep; split <;> rfl
+@[simp] theorem sweep_dials (s : St) : (sweep s).dials = s.dials := by unfold sweep; split <;> rfl
+@[simp] theorem sweep_closed (s : St) : (sweep s).closed = s.closed := by unfold sweep; split <;> rfl
+@[simp] theorem sweep_kind (s : St) : (sweep s).kind = s.kind := by unfold sweep; split <;> rfl
+@[simp] theorem sweep_atClose (s : St) : (sweep s).atClose = s.atClose := by unfold sweep; split <;> rfl
+@[simp] theorem sweep_ndials (s : St) : (sweep s).ndials = s.ndials := by unfold sweep; split <;> rfl
+
+theorem burn_eq (s : St) (k : Nat) :
+    (burnOp s k).exs = s.exs ∧ (burnOp s k).dials = s.dials ∧ (burnOp s k).closed = s.closed ∧
+    (burnOp s k).kind = s.kind ∧ (burnOp s k).atClose = s.atClose ∧ (burnOp s k).ndials = s.ndials := by
+  unfold burnOp
+  repeat' split
+  all_goals exact ⟨rfl, rfl, rfl, rfl, rfl, rfl⟩
+
+@[simp] theorem burn_exs (s : St) (k : Nat) : (burnOp s k).exs = s.exs := (burn_eq s k).1
+@[simp] theorem burn_dials (s : St) (k : Nat) : (burnOp s k).dials = s.dials := (burn_eq s k).2.1
+@[simp] theorem burn_closed (s : St) (k : Nat) : (burnOp s k).closed = s.closed := (burn_eq s k).2.2.1
+@[simp] theorem burn_kind (s : St) (k : Nat) : (burnOp s k).kind = s.kind := (burn_eq s k).2.2.2.1
+@[simp] theorem burn_atClose (s : St) (k : Nat) : (burnOp s k).atClose = s.atClose := (burn_eq s k).2.2.2.2.1
+
+theorem inv_sweep (s : St) (h : Inv s) : Inv (sweep s) := by
+  obtain ⟨hA, hB, hC, hW, hD⟩ := h
+  unfold sweep
+  split
+  · constructor <;> simp only [List.mem_map] <;> grind
+  · exact ⟨hA, hB, hC, hW, hD⟩
+
+theorem inv_burn (s : St) (k : Nat) (h : Inv s) : Inv (burnOp s k) := by
+  obtain ⟨hA, hB, hC, hW, hD⟩ := h
+  unfold burnOp
+  repeat' split
+  all_goals
+    first
+    | exact ⟨hA, hB, hC, hW, hD⟩
+    | (constructor <;> simp only [List.mem_map] <;> grind)
+
+/-- `step` without the self-close sweep and without the id bookkeeping of `burn`: exchanges, dials, the closed
+    flag and the blocked-at-close record evolve exactly as under `step` -/
+def step0 (s : St) : Op → St
+  | .start e b => startOp s e b
+  | .dialOk d => dialOkOp s d
+  | .dialErr d => dialErrOp s d
+  | .reply e => replyOp s e
+  | .cancel e => cancelOp s e
+  | .timer => timerOp s
+  | .close => closeOp s
+  | .trunc _ => s
+  | .burn _ => s
+
+theorem step_exs (s : St) (op : Op) : (step s op).exs = (step0 s op).exs := by
+  cases op <;> simp [step, step0]
+theorem step_dials (s : St) (op : Op) : (step s op).dials = (step0 s op).dials := by
+  cases op <;> simp [step, step0]
+theorem step_closed (s : St) (op : Op) : (step s op).closed = (step0 s op).closed := by
+  cases op <;> simp [step, step0]
+theorem step_atClose (s : St) (op : Op) : (step s op).atClose = (step0 s op).atClose := by
+  cases op <;> simp [step, step0]
+
 theorem inv_step (s : St) (op : Op) (h : Inv s) : Inv (step s op) := by
   cases op with
   | start e b => exact inv_start s e b h
   | dialOk d => exact inv_dialOk s d h
   | dialErr d => exact inv_dialErr s d h
-  | reply e => exact inv_reply s e h
-  | cancel e => exact inv_cancel s e h
+  | reply e => exact inv_sweep _ (inv_reply s e h)
+  | cancel e => exact inv_sweep _ (inv_cancel s e h)
+  | burn k => exact inv_sweep _ (inv_burn s k h)
   | timer => exact inv_timer s h
   | close => exact inv_close s h
   | trunc e => exact h
@@ -163,9 +224,25 @@ theorem close_idem (s : St) : closeOp (closeOp s) = closeOp s :=
   closeOp_of_closed _ (closeOp_closed s)
 
 theorem closed_step (s : St) (op : Op) (h : s.closed = true) : (step s op).closed = true := by
-  cases op <;> simp only [step, startOp, dialOkOp, dialErrOp, replyOp, cancelOp, timerOp, closeOp] <;>
+  cases op <;>
+    simp only [step, startOp, dialOkOp, dialErrOp, replyOp, cancelOp, timerOp, closeOp, sweep_closed,
+      burn_closed] <;>
     repeat' split
-  all_goals simp_all
+  all_goals first | exact h | simp_all
+
+theorem step_kind (s : St) (op : Op) : (step s op).kind = s.kind := by
+  cases op <;>
+    simp only [step, sweep_kind, burn_kind, startOp, dialOkOp, dialErrOp, replyOp, cancelOp, timerOp,
+      closeOp] <;>
+    repeat' split
+  all_goals rfl
+
+theorem run_kind (s : St) (l : List Op) : (run s l).kind = s.kind := by
+  induction l generalizing s with
+  | nil => rfl
+  | cons op rest ih =>
+    simp only [run, List.foldl_cons] at ih ⊢
+    rw [ih, step_kind]
 
 theorem closed_run (s : St) (ops : List Op) (h : s.closed = true) : (run s ops).closed = true := by
   induction ops generalizing s with
@@ -174,7 +251,7 @@ theorem closed_run (s : St) (ops : List Op) (h : s.closed = true) : (run s ops).
 
 theorem late_dial (s : St) (d : Nat) (hc : s.closed = true) (hd : s.hasDial d = true) :
     dialOkOp s d =
-      { s with dials := s.dials.filter (·.id != d), conns := s.conns ++ [⟨d, false, false, false⟩],
+      { s with dials := s.dials.filter (·.id != d), conns := s.conns ++ [⟨d, false, false, false, 0⟩],
                exs := failWaiters d s.exs } := by
   simp [dialOkOp, hd, hc]
 
@@ -221,18 +298,21 @@ theorem no_ok_after_close (s : St) (op : Op) (hi : Inv s) (hc : s.closed = true)
       simp only [List.any_eq_false]
       intro k hk
       simp [hno k hk]
-    simp only [step, replyOp]
+    simp only [step, sweep_exs, replyOp]
     intro x hx hr
     repeat' split at hx
     all_goals first
       | exact ⟨x, hx, rfl, hr⟩
       | (simp [hany] at *)
   | cancel e =>
-    simp only [step, cancelOp, List.mem_map]
+    simp only [step, sweep_exs, cancelOp, List.mem_map]
     rintro x ⟨y, hy, rfl⟩ hr
     split at hr
     · simp at hr
     · exact ⟨y, hy, by simp_all, hr⟩
+  | burn k =>
+    simp only [step, sweep_exs, burn_exs]
+    intro x hx hr; exact ⟨x, hx, rfl, hr⟩
   | timer =>
     simp only [step, timerOp]
     intro x hx hr
